@@ -1411,6 +1411,13 @@ def mon_c09(ix: Index):  # noqa: C901, PLR0912
                 if first_only:
                     out.append(V("C09", "C09/call-raised/%s/%s" % ("zero-items" if nb == 0 else "n>0", e.get("etype") or e["cls"]),
                                  "%s raised %s(%s): %s" % (path, e["cls"], e.get("etype"), str(e.get("msg"))[:100]), e["i"]))
+            elif e["kind"] == "exc" and e.get("path") == path and e.get("opkind") in ("par", "map") and not any(x["kind"] == "api" and x.get("fault") for x in ix.trace):
+                # an invocation-level error class raised BY A BRANCH FUNCTION is that branch's failure (an item of the batch), not the
+                # batch call's: with no checkpoint failure anywhere in the run, the call may not raise the branch's own exception
+                src = next((x for x in ix.trace if x["kind"] == "fn_exit" and x.get("fnkind") == "branch" and x["inv"] == e["inv"] and x["i"] < e["i"]
+                            and x.get("path", "").rsplit("/", 1)[0] == path and x.get("outcome") == "raise:%s" % e["cls"]), None)
+                if src is not None and not any(x["kind"] == "exc" and x.get("path") == path and x["i"] < e["i"] for x in ix.trace):
+                    out.append(V("C09", "C09/call-raised/branch-error-escaped/%s" % e["cls"], "%s raised the %s of its branch %s instead of reporting a failed item" % (path, e["cls"], src["path"]), e["i"]))
         if ix.r.get("stop") == "hang" and any(e["kind"] == "call" and e.get("path") == path for e in ix.trace) and \
                 not any(e["kind"] in ("ret", "exc", "susp", "abort") and e.get("path") == path and e["inv"] == ix.trace[-1]["inv"] for e in ix.trace):
             h = next((x for x in ix.trace if x["kind"] == "hang"), {})
